@@ -247,13 +247,11 @@ Definition do_fit_tilt (s : state) (p : nat) (inplace : bool) : state * outcome 
       let ows := if inplace then [j] else [] in
       if scalar s1 m1 || scalar s1 d1 then ret s1 [] [] (VObj jt)     (* ptt_vector is None or opd.size == 1 *)
       else if Nat.leb nseg 1 then
-        (* plane.opd -= opd_tilt.reshape(...); plane.tilt.append(Tilt(...)) *)
-        match wr s1 d1 (kf K 20 [valof s1 d1; valof s1 m1] []) with
-        | None => fail s 1 [d1]
-        | Some s2 =>
-          ret (set_obj s2 jt (Plane a1 d1 m1 (tl ++ [kt K (valof s1 d1) (valof s1 m1) 0]) nseg kind))
-              [d1] ows (VObj jt)
-        end
+        (* plane.opd = plane.opd - opd_tilt.reshape(...): a fresh array is bound to the attribute, the old buffer (the
+           caller's constructor array, possibly read-only or of integer dtype) is only read; plane.tilt.append(Tilt(...)) *)
+        let '(s2, d2) := alloc1 s1 (kf K 20 [valof s1 d1; valof s1 m1] []) in
+        ret (set_obj s2 jt (Plane a1 d2 m1 (tl ++ [kt K (valof s1 d1) (valof s1 m1) 0]) nseg kind))
+            [] ows (VObj jt)
       else
         (* plane.opd = np.sum(opd_no_tilt, axis=0); plane.tilt.extend([...]) *)
         let '(s2, d2) := alloc1 s1 (kf K 21 [valof s1 d1; valof s1 m1] []) in
@@ -555,7 +553,6 @@ Definition init : state := mkstate [] [] [] [] 0.
 Definition documented (s : state) (o : op) : list aid :=
   match o with
   | OPoke r => match getarr s r with Some a => [a] | None => [] end               (* the caller's own assignment *)
-  | OFitTilt p true => match getobj s p with Some (_, Plane _ d _ _ _ _) => [d] | _ => [] end   (* in-place tilt fit: the plane's OPD *)
   | OPropFft _ (Some r) => match getarr s r with Some a => [a] | None => [] end  (* scratch *)
   | OInsert _ r => match getarr s r with Some a => [a] | None => [] end          (* accumulate into array *)
   | ODft2 _ _ (Some r) _ _ => match getarr s r with Some a => [a] | None => [] end   (* explicit output buffer *)
@@ -568,7 +565,7 @@ Definition odocumented (s : state) (o : op) : list oid :=
   let ob1 r := match getobj s r with Some (j, _) => [j] | None => [] end in
   match o with
   | OSetOpd p _ | OSetAmp p _ => ob1 p           (* attribute assignment by the caller *)
-  | OFitTilt p true => ob1 p                     (* in-place tilt fit *)
+  | OFitTilt p true => ob1 p                     (* in-place tilt fit: the plane's opd attribute and tilt list; no buffer is written *)
   | OSpecTo r _ | OSpecTrim r | OSpecResample r _ => ob1 r    (* the spectrum editing methods *)
   | _ => []
   end.
